@@ -458,17 +458,30 @@ func cleanEnd(prop string, att *AttemptResult, idx int) []Violation {
 
 func checkC02(r *Run) []Violation {
 	sc := r.sc
-	att := r.Results[0]
+	att := r.Results[len(r.Results)-1]
 	var vs []Violation
-	if att.EarlyDelivery != "" {
-		vs = append(vs, Violation{"C02", "early-delivery", att.EarlyDelivery, 0})
+	// (two-attempt variant: the first call ends with a refused transaction that the
+	// application steps over; the deliveries of both calls together are the commit
+	// points of the binlog, the refused one included, each exactly once)
+	var calls []*HandlerCall
+	for ai, a := range r.Results {
+		if a.EarlyDelivery != "" {
+			vs = append(vs, Violation{"C02", "early-delivery", a.EarlyDelivery, ai})
+		}
+		if a.Hang && ai < len(r.Results)-1 {
+			return vs // C05's business
+		}
+		calls = append(calls, a.Calls...)
+	}
+	if len(r.Results) != len(sc.Attempts) {
+		return vs
 	}
 	exp, ok := sc.Hist.Model(sc.Start)
 	if !ok {
 		return append(vs, Violation{"C02", "harness", "bad start", 0})
 	}
 	// grouping: same number of deliveries, each with exactly the expected changes
-	for i, c := range att.Calls {
+	for i, c := range calls {
 		if c.Snap == nil {
 			return append(vs, Violation{"C02", "grouping", fmt.Sprintf("delivery %d is nil", i), 0})
 		}
@@ -487,11 +500,11 @@ func checkC02(r *Run) []Violation {
 			return append(vs, Violation{"C02", "grouping", fmt.Sprintf("delivery %d ends at %v, its commit event ends at %v", i, c.Snap.Next, exp[i].Next), 0})
 		}
 	}
-	if len(att.Calls) < len(exp) && !att.Hang {
-		u := sc.Hist.Units[exp[len(att.Calls)].Unit]
-		vs = append(vs, Violation{"C02", "grouping", fmt.Sprintf("%d deliveries, %d commit points; first undelivered: unit %d (%s)", len(att.Calls), len(exp), exp[len(att.Calls)].Unit, u.Desc), 0})
+	if len(calls) < len(exp) && !att.Hang {
+		u := sc.Hist.Units[exp[len(calls)].Unit]
+		vs = append(vs, Violation{"C02", "grouping", fmt.Sprintf("%d deliveries, %d commit points; first undelivered: unit %d (%s)", len(calls), len(exp), exp[len(calls)].Unit, u.Desc), 0})
 	}
-	vs = append(vs, cleanEnd("C02", att, 0)...)
+	vs = append(vs, cleanEnd("C02", att, len(r.Results)-1)...)
 	return vs
 }
 
